@@ -203,6 +203,7 @@ func (v *Verifier) VerifyStructural(name string, propNames []string) *FuncResult
 		var bad []string
 		n := 0
 		histTags := map[string]string{}
+		histRawTags := map[string]string{}
 		symbolsSeen := map[string]int{}
 		isHumanerGlobal := func(x ssa.Value) bool {
 			u, ok := x.(*ssa.UnOp)
@@ -279,6 +280,7 @@ func (v *Verifier) VerifyStructural(name string, propNames []string) *FuncResult
 								return ""
 							}
 							histTags[st.Field(fa.Field).Name()] = strings.TrimSuffix(reflect.StructTag(st.Tag(fa.Field)).Get("json"), ",omitempty")
+							histRawTags[st.Field(fa.Field).Name()] = reflect.StructTag(st.Tag(fa.Field)).Get("json")
 							return st.Field(fa.Field).Name()
 						}
 						// "the three formats present the same measurements" (C11):
@@ -301,6 +303,10 @@ func (v *Verifier) VerifyStructural(name string, propNames []string) *FuncResult
 							}
 							if vf == "" || !want[tag] {
 								bad = append(bad, fn.String()+" ("+v.posStr(in.Pos())+"): item "+sym+" reports field "+vf+" (JSON v1 key "+tag+")")
+							} else if histRawTags[vf] != tag {
+								// a measurement is always present in JSON v1 (0 when
+								// there is none); only witnesses may be omitted
+								bad = append(bad, fn.String()+" ("+v.posStr(in.Pos())+"): the JSON v1 key of "+vf+" carries options ("+histRawTags[vf]+"): the measurement would be left out when it is 0")
 							}
 							symbolsSeen[sym]++
 						}
@@ -311,6 +317,11 @@ func (v *Verifier) VerifyStructural(name string, propNames []string) *FuncResult
 								if vf != "" && pf == vf+suf {
 									okW = true
 								}
+							}
+							if okW && !strings.HasSuffix(histRawTags[pf], ",omitempty") {
+								// --names=none: no object is cited (C08) -- a nil
+								// witness must not appear in JSON v1
+								bad = append(bad, fn.String()+" ("+v.posStr(in.Pos())+"): witness field "+pf+" is not omitted from JSON v1 when there is no witness (tag "+histRawTags[pf]+")")
 							}
 							if !okW {
 								bad = append(bad, fn.String()+" ("+v.posStr(in.Pos())+"): metric "+vf+" is cited with witness field "+pf)
